@@ -6,6 +6,7 @@ open Evo
   `rpe rel 2k i1 j1 … n ref-poses… n est-poses…` → `OK m id… | core…` | `E_METRICS:len` | `E_GEOMETRY` | `E_INDEX`
        (core tokens: `S:r`, `A:c:s2:rad|deg`, `D:a:b` = |√a−√b|, `R:a:b` = |√a−√b|/√a·100)
   `margin 2k pairs… n ref… n est…`  → smallest distance of an `is_so3` guard quantity from its threshold
+  `relinfo <cli choice>`              → `PoseRelation value|APE unit|RPE unit` (table tie)
   `plan <15 common tokens> delta unit tol allPairs fromRef` → `step | step | …` or `E_FILTER` -/
 def handle (op : String) (args : List String) : Option String :=
   match op, args with
@@ -25,6 +26,9 @@ def handle (op : String) (args : List String) : Option String :=
   | "plan", rest => do
       let o ← readRpeOpts rest
       some (showPlan (rpePlan o))
+  | "relinfo", [name] => do
+      let rel ← PoseRelation.ofString? name
+      some (rel.value ++ "|" ++ rel.apeUnit ++ "|" ++ rel.rpeUnit)
   | _, _ => none
 
 end Evo.Drv.C02
